@@ -45,8 +45,13 @@ func vValidPrefix(s string) bool {
 	return true
 }
 
+// vPinnedFindStop selects the model variant the oracle runs for `find`: 1 = FindStop as pinned (first
+// listed stop), 0 = the repaired FindStop of proposed_fixes/C14-F7.patch (earliest occurrence).
+// Flip to 0 (here and in runner_ollamarunner/zz_verif_c14_test.go) when the fix is applied to /repo.
+const vPinnedFindStop = 1
+
 func vFind(out *zzverif.Out, seq string, stops []string) {
-	line := "find " + zzverif.Hex([]byte(seq)) + " " + vHexList(stops)
+	line := fmt.Sprintf("find %d ", vPinnedFindStop) + zzverif.Hex([]byte(seq)) + " " + vHexList(stops)
 	ok, stop := FindStop(seq, stops)
 	obs := "none"
 	if ok {
@@ -356,8 +361,8 @@ func vReplay(t *testing.T, out *zzverif.Out, path string) {
 	}
 	switch toks[0] {
 	case "find":
-		st, _ := list(2)
-		vFind(out, un(toks[1]), st)
+		st, _ := list(3)
+		vFind(out, un(toks[2]), st)
 	case "suffix":
 		st, _ := list(2)
 		vSuffix(out, un(toks[1]), st)
